@@ -295,6 +295,19 @@ func H_arr_invalid() {
 	if e2 != nil {
 		vAssert(e2 == ErrIndexNotAscending && b.Cnt == 0 && len(b.Bitmaps) == 0 && len(b.Offsets) == 0, "C16.initindex.nothing-built")
 	}
+	// Init on a receiver the caller keeps: a rejected call leaves it empty
+	u := &U32{}
+	e3 := u.Init(idx, elts)
+	vAssert((e3 != nil) == (err != nil), "C16.init.same-verdict")
+	if e3 != nil {
+		vAssert(u.Cnt == 0 && len(u.Bitmaps) == 0 && len(u.Offsets) == 0 && len(u.Elts) == 0, "C16.init.nothing-built")
+	}
+	g := &Array{}
+	e4 := g.Init(idx, elts)
+	vAssert((e4 != nil) == (err != nil), "C16.init.same-verdict")
+	if e4 != nil {
+		vAssert(g.Cnt == 0 && len(g.Bitmaps) == 0 && len(g.Offsets) == 0 && len(g.Elts) == 0 && g.EltEncoder == nil, "C16.init.nothing-built")
+	}
 	vObserve("rejected", err != nil)
 	vReach("end")
 }
